@@ -132,6 +132,33 @@ def cmdExec (expandRaises : Bool) (cap : Cap) (saveOut : Option Nat) (rc : Int) 
   | .ok, some k => ⟨oc, res, [(k, outV)]⟩
   | _, _ => ⟨oc, res, []⟩
 
+/-! ### `doit.tools` action classes (`LongRunning`, `Interactive`, `PythonInteractiveAction`)
+
+None of them captures (`out`/`err` stay `None`; a cmd gets the live streams or inherits the descriptors, the python
+callable writes to whatever `sys.stdout` is).  `expand_action()` / `_prepare_kwargs()` are called outside any
+`try`, so their exceptions leave `execute()`.  `interrupt`: a `KeyboardInterrupt` arrives while waiting for the
+process. -/
+
+/-- `LongRunning` (alias `InteractiveAction`): the return code is not used, `KeyboardInterrupt` is swallowed -/
+def longRunningExec (expandRaises : Bool) (_interrupt : Bool) (_rc : Int) : ARes :=
+  if expandRaises then ⟨.raised, .none, []⟩ else ⟨.ok, .none, []⟩
+
+/-- `Interactive`: any non-zero return code (also > 125, also a signal) is a `TaskFailed`; never a `TaskError` -/
+def interactiveExec (expandRaises interrupt : Bool) (rc : Int) : ARes :=
+  if expandRaises || interrupt then ⟨.raised, .none, []⟩
+  else if rc ≠ 0 then ⟨.failed, .none, []⟩ else ⟨.ok, .none, []⟩
+
+/-- `PythonInteractiveAction`: successful unless an `Exception` is raised -- a returned `False`, `TaskFailed`,
+    `TaskError` or anything else is *not* looked at; str / dict are stored as for a python-action -/
+def pyInteractiveExec (kwargsRaise : Bool) (r : PyRet) : ARes :=
+  if kwargsRaise then ⟨.raised, .none, []⟩ else
+  match r with
+  | .rStr s => ⟨.ok, .str s, []⟩
+  | .rDict d => ⟨.ok, .dict d, d⟩
+  | .raisesExc => ⟨.error, .none, []⟩
+  | .raisesBase => ⟨.raised, .none, []⟩
+  | _ => ⟨.ok, .none, []⟩
+
 /-! ### decoding of the captured bytes (`CmdAction._print_process_output`)
 
 The repaired code (F-C17c, c208dcd) feeds every read into one incremental decoder, so the captured text is the
